@@ -68,6 +68,9 @@ def gen_spec(rng):
     if rng.random() < 0.2:
         # outputs with a large common offset (cumulative volumes, monetary values): the spread is what a standard deviation is about
         spec["ensemble"]["offset"] = float(rng.choice([1e4, 1e6, 1e8]))
+    if rng.random() < 0.2:
+        # the same outputs in other units: an estimate is as exact for values of order 1e-9 as for values of order 1e9
+        spec["ensemble"]["unit"] = float(10.0 ** rng.choice([-12, -9, -6, 6, 9]))
     spec["rmin"] = int(rng.integers(0, R + 1))
     nan = []
     if rng.random() < 0.45:
@@ -233,14 +236,17 @@ def expected_functions(obs, spec, cfg, res, objs, cons):
         big = float(np.nanmax(np.abs(np.where(np.isnan(allv[:, j]), 0.0, allv[:, j])))) if allv.size else 0.0
         if big > 1e3:
             obs.count("values_with_large_common_offset_compared")
-        if not abs(got[j] - want[j]) <= TOL * (1 + abs(want[j])) + 256 * np.finfo(float).eps * big:
+        unit = float(spec["ensemble"].get("unit", 1.0))
+        if unit != 1.0:
+            obs.count("values_in_other_units_compared")
+        if not abs(got[j] - want[j]) <= TOL * (min(1.0, unit) + abs(want[j])) + 256 * np.finfo(float).eps * big:
             obs.violation("function_value", function=j, got=float(got[j]), want=float(want[j]), failed=failed,
                           configured=configured, values=allv[:, j])
             ok = False
     ow = np.asarray(cfg.objectives.weights)
     wo = float(np.dot(ow, want[:n_obj]))
     obs.count("values_compared")
-    if not abs(float(res.functions.weighted_objective) - wo) <= TOL * (1 + abs(wo)):
+    if not abs(float(res.functions.weighted_objective) - wo) <= TOL * (min(1.0, float(spec["ensemble"].get("unit", 1.0))) + abs(wo)) + 256 * np.finfo(float).eps * float(np.nanmax(np.abs(np.where(np.isnan(allv), 0.0, allv)))) if allv.size else 0.0:
         obs.violation("weighted_objective", got=float(res.functions.weighted_objective), want=wo, oweights=ow)
         ok = False
     if abs(ow.sum() - 1) > 1e-12:
